@@ -38,37 +38,66 @@ def _is_call_to(p, mod, call, target) -> bool:
     return isinstance(call.func, ast.Name) and call.func.id == target.name
 
 
-def _view(ctx, fn):
-    """ctx.view(fn), after (1) table dispatch is written back as an if / elif chain (_c13_tables) and (2) the calls to the two
-    anchor functions are spelled by their own names: the normaliser keeps a call
-    un-expanded when a rule names the called name, so `from ..utils import mask_by_extent as pick` / `utils.mask_by_extent`
-    would otherwise have the predicate's body expanded into the override and the delegation could not be seen."""
+def _view(ctx, fn, receiver=None):
+    """Normalised view of `fn` for a receiver class (default: the class defining it), after (1) table dispatch is written back
+    as an if / elif chain (_c13_tables), (2) the calls to the two anchor functions are spelled by their own names — the
+    normaliser keeps a call un-expanded when a rule names the called name, so `from ..utils import mask_by_extent as pick` /
+    `utils.mask_by_extent` would otherwise have the predicate's body expanded into the override and the delegation could
+    not be seen — and with (3) `self.<hook>()` calls resolved on the receiver class (_c13_recv: template methods)."""
     import copy
     from ..model import FuncInfo
+    from ._c13_recv import view_for
 
-    key = ("c13-view", id(fn.node))
-    if key in ctx.cache:
-        return ctx.cache[key][1]
-    p = ctx.p
-    utils = p.module("shared/utils.py")
-    anchors = [f for f in (utils.functions.get("mask_by_extent"), utils.functions.get("box_intersect")) if f is not None]
-    node, renamed = copy.deepcopy(fn.node), False
-    for c in ast.walk(node):
-        if isinstance(c, ast.Call) and not (isinstance(c.func, ast.Name) and c.func.id in [a.name for a in anchors]):
-            r = p.resolve_expr(fn.module, c.func)
-            if r and r[0] == "func" and any(r[1] is a for a in anchors):
-                c.func = ast.copy_location(ast.Name(id=r[1].name, ctx=ast.Load()), c.func)
-                renamed = True
-    from ._c13_tables import Tables
+    key = ("c13-src", id(fn.node))
+    if key not in ctx.cache:
+        p = ctx.p
+        utils = p.module("shared/utils.py")
+        anchors = [f for f in (utils.functions.get("mask_by_extent"), utils.functions.get("box_intersect")) if f is not None]
+        node, renamed = copy.deepcopy(fn.node), False
+        for c in ast.walk(node):
+            if isinstance(c, ast.Call) and not (isinstance(c.func, ast.Name) and c.func.id in [a.name for a in anchors]):
+                r = p.resolve_expr(fn.module, c.func)
+                if r and r[0] == "func" and any(r[1] is a for a in anchors):
+                    c.func = ast.copy_location(ast.Name(id=r[1].name, ctx=ast.Load()), c.func)
+                    renamed = True
+        from ._c13_tables import Tables
 
-    tables = Tables(p, fn)  # dispatch through a dict of callables, written back as the if / elif chain it stands for
-    chained = tables.rewrite(node)
-    if tables.changed:
-        node, renamed = chained, True
-    src = FuncInfo(name=fn.name, module=fn.module, node=node, cls=fn.cls, kind=fn.kind, prop=fn.prop) if renamed else fn
-    v = ctx.view(src)
-    ctx.cache[key] = (src, v)  # keeps the renamed copy alive (views are cached by node identity)
-    return v
+        tables = Tables(p, fn)  # dispatch through a dict of callables, written back as the if / elif chain it stands for
+        chained = tables.rewrite(node)
+        if tables.changed:
+            node, renamed = chained, True
+        src = FuncInfo(name=fn.name, module=fn.module, node=node, cls=fn.cls, kind=fn.kind, prop=fn.prop) if renamed else fn
+        ctx.cache[key] = (fn, src)  # keeps the function and the renamed copy alive (caches are keyed by node identity)
+    src = ctx.cache[key][1]
+    receiver = receiver if receiver is not None else fn.cls
+    if receiver is None or fn.kind == "staticmethod":
+        return ctx.view(src)
+    return view_for(ctx, src, receiver, id(fn.node))
+
+
+def _users(p, ci, name, fn0):
+    """The classes on which `name` resolves to the method fn0 of class ci (ci first)."""
+    out = []
+    for K in p.subclasses(ci):
+        m = K.lookup(name)
+        if m and m[1] == "method" and m[2] is fn0:
+            out.append(K)
+    return sorted(out, key=lambda K: K is not ci)
+
+
+def _views_by_receiver(ctx, ci, name, fn0):
+    """[(view, [classes sharing it])] of method fn0 over the classes that use it: one entry unless a hook it calls is
+    overridden below ci."""
+    groups: list = []
+    for K in _users(ctx.p, ci, name, fn0):
+        v = _view(ctx, fn0, K)
+        for g in groups:
+            if g[0] is v:
+                g[1].append(K)
+                break
+        else:
+            groups.append((v, [K]))
+    return groups
 
 
 def _mask_source(p, fn, call, pred):
@@ -179,6 +208,15 @@ class _Override:
             return e.id == self.inv_name
         return any(self._reads_inverse(c) for c in ast.iter_child_nodes(e))
 
+    def _built_from_object(self, e) -> bool:
+        """`e` is computed from the state of the object alone (np.c_[[self.collar["x"], ..]].T): it reads self and, besides,
+        only names that are neither parameters nor locals of the function (modules, functions)."""
+        a = self.node.args
+        bound = {x.arg for x in a.posonlyargs + a.args + a.kwonlyargs} - {self.self_name}
+        bound |= {x.id for x in ast.walk(self.node) if isinstance(x, ast.Name) and isinstance(x.ctx, ast.Store)}
+        names = {x.id for x in ast.walk(e) if isinstance(x, ast.Name)}
+        return self.self_name in names and not (names & bound) and not self.from_pred(e)
+
     def forwards_inverse(self, call) -> bool:
         slot = _mask_source(self.p, self.fn, call, self.pred)
         return _forwards_flag(_argument(call, "inverse", slot, self.node, self.defs), self.inv_name, self.pf, call)
@@ -197,7 +235,7 @@ class _Override:
                 return None
             if isinstance(x, ast.Name) and x.id == self.ext_name:
                 return "no extent"
-            if _self_rooted(x, self.self_name):
+            if _self_rooted(x, self.self_name) or self._built_from_object(x):
                 return "geometry missing"
             if self.from_pred(x):
                 return "predicate result"
@@ -272,48 +310,51 @@ def rule_deleg(ctx) -> RuleResult:
     for ci in p.classes:
         if ci.synthetic or "mask_by_extent" not in ci.methods:
             continue
-        fn = _view(ctx, ci.methods["mask_by_extent"])
-        body = [s for s in fn.node.body if not (isinstance(s, ast.Expr) and isinstance(s.value, ast.Constant))]
-        ident = f"{ci.name}.mask_by_extent"
+        fn0 = ci.methods["mask_by_extent"]
+        body = [s for s in fn0.node.body if not (isinstance(s, ast.Expr) and isinstance(s.value, ast.Constant))]
         if not body:
-            res.inst(f"{ident}: declaration only (abstract / documented no-op)")
+            res.inst(f"{ci.name}.mask_by_extent: declaration only (abstract / documented no-op)")
             continue
-        o = _Override(p, fn, pred)
-        for c in o.pcalls:
-            if not o.forwards_inverse(c):
-                res.find(ci.name, "mask_by_extent", f"predicate called without inverse={o.inv_name}",
-                         f"{fn.module.relpath}:{c.lineno}",
-                         "the override drops the `inverse` option on its way to the shared predicate: inverse selections return the non-inverted mask")
-        rets = o.pf.returns()
-        no_geometry = len(body) == 1 and isinstance(body[0], ast.Return) and (body[0].value is None or is_none(body[0].value))
-        for n, r in rets:
-            v = r.value
-            if v is None or is_none(v):
-                why = "class without geometry" if no_geometry else o.none_reason(o.pf.at(n))
-                ok = why is not None
-                what = "return None" + (f" ({why})" if ok else "")
-                if not ok:
-                    res.find(ci.name, "mask_by_extent", "return None outside the accepted contexts",
-                             f"{fn.module.relpath}:{r.lineno}",
-                             "the override returns nothing although the box may contain elements of the object")
-            else:
-                ok = o.from_pred(v) or ci.name in WHOLE_OBJECT
-                what = "return <value computed from the shared predicate>" if ok else "return <other value>"
-                if not ok:
-                    res.find(ci.name, "mask_by_extent", "returned mask does not come from the shared predicate",
-                             f"{fn.module.relpath}:{r.lineno}",
-                             "the override computes its own selection instead of delegating to shared.utils.mask_by_extent")
-            res.inst(f"{ident}:{r.lineno} {what}", nontrivial=True, ok=ok)
-        if any(r.value is not None and not is_none(r.value) for _, r in rets):
-            for n, facts in o.pf.fall_through():
-                ok = o.none_reason(facts) is not None
-                res.inst(f"{ident}:{n.lineno} falls off the end (implicit None)", nontrivial=True, ok=ok)
-                if not ok:
-                    res.find(ci.name, "mask_by_extent", "implicit return None outside the accepted contexts",
-                             f"{fn.module.relpath}:{n.lineno}",
-                             "the override returns nothing although the box may contain elements of the object")
+        # one pass per resolution of the hooks the method calls on the classes that use it (a single one unless a hook is
+        # overridden below ci: template method)
+        for fn, receivers in _views_by_receiver(ctx, ci, "mask_by_extent", fn0):
+            ident = f"{ci.name}.mask_by_extent" + ("" if receivers[0] is ci else f" [on {receivers[0].name}]")
+            o = _Override(p, fn, pred)
+            for c in o.pcalls:
+                if not o.forwards_inverse(c):
+                    res.find(ci.name, "mask_by_extent", f"predicate called without inverse={o.inv_name}",
+                             f"{fn.module.relpath}:{c.lineno}",
+                             "the override drops the `inverse` option on its way to the shared predicate: inverse selections return the non-inverted mask")
+            rets = o.pf.returns()
+            no_geometry = len(body) == 1 and isinstance(body[0], ast.Return) and (body[0].value is None or is_none(body[0].value))
+            for n, r in rets:
+                v = r.value
+                if v is None or is_none(v):
+                    why = "class without geometry" if no_geometry else o.none_reason(o.pf.at(n))
+                    ok = why is not None
+                    what = "return None" + (f" ({why})" if ok else "")
+                    if not ok:
+                        res.find(ci.name, "mask_by_extent", "return None outside the accepted contexts",
+                                 f"{fn.module.relpath}:{r.lineno}",
+                                 "the override returns nothing although the box may contain elements of the object")
+                else:
+                    ok = o.from_pred(v) or ci.name in WHOLE_OBJECT
+                    what = "return <value computed from the shared predicate>" if ok else "return <other value>"
+                    if not ok:
+                        res.find(ci.name, "mask_by_extent", "returned mask does not come from the shared predicate",
+                                 f"{fn.module.relpath}:{r.lineno}",
+                                 "the override computes its own selection instead of delegating to shared.utils.mask_by_extent")
+                res.inst(f"{ident}:{r.lineno} {what}", nontrivial=True, ok=ok)
+            if any(r.value is not None and not is_none(r.value) for _, r in rets):
+                for n, facts in o.pf.fall_through():
+                    ok = o.none_reason(facts) is not None
+                    res.inst(f"{ident}:{n.lineno} falls off the end (implicit None)", nontrivial=True, ok=ok)
+                    if not ok:
+                        res.find(ci.name, "mask_by_extent", "implicit return None outside the accepted contexts",
+                                 f"{fn.module.relpath}:{n.lineno}",
+                                 "the override returns nothing although the box may contain elements of the object")
         if ci.name in WHOLE_OBJECT:
-            res.notes.append(f"{ident}: {WHOLE_OBJECT[ci.name]}")
+            res.notes.append(f"{ci.name}.mask_by_extent: {WHOLE_OBJECT[ci.name]}")
     return res
 
 
@@ -652,15 +693,22 @@ def rule_orphan(ctx) -> RuleResult:
         floor=3,
     )
     p = ctx.p
-    from ..cfg import CFG
-    from ..kinds import reach
-
     K = p.cls("CellObject")
     fn0 = K.methods.get("mask_by_extent")
     if fn0 is None:
         raise AnalysisError("anchor CellObject.mask_by_extent not found")
+    # per resolution of the hooks the method calls on the classes that use it (one, unless a hook is overridden below)
+    for fn, _receivers in _views_by_receiver(ctx, K, "mask_by_extent", fn0):
+        _orphan_check(ctx, res, fn)
+    return res
+
+
+def _orphan_check(ctx, res, fn):
+    from ..cfg import CFG
+    from ..kinds import reach
+
+    p = ctx.p
     pred = _predicate(p)
-    fn = _view(ctx, fn0)
     node, defs = prepare(fn.node)
     sn = fn.self_name or "self"
     cells_txt = f"{sn}.cells"
@@ -675,8 +723,23 @@ def rule_orphan(ctx) -> RuleResult:
     pcalls = {id(c) for c in ast.walk(node) if _mask_source(p, fn, c, pred) is not None}
     if not pcalls:
         raise AnalysisError("CellObject.mask_by_extent: vertex mask from the shared predicate not found")
-    mask_names = {t.id for n in ast.walk(node) if isinstance(n, (ast.Assign, ast.AnnAssign)) and n.value is not None and id(n.value) in pcalls
+    def yields_mask(v):
+        """v is the call itself, or a conditional expression whose arms are that or None (`None if <no geometry> else <call>`)"""
+        if isinstance(v, ast.IfExp):
+            arms = [v.body, v.orelse]
+            return all(is_none(a) or yields_mask(a) for a in arms) and any(yields_mask(a) for a in arms)
+        return id(v) in pcalls
+
+    mask_names = {t.id for n in ast.walk(node) if isinstance(n, (ast.Assign, ast.AnnAssign)) and n.value is not None and yields_mask(n.value)
                   for t in (n.targets if isinstance(n, ast.Assign) else [n.target]) if isinstance(t, ast.Name)}
+    grown = True
+    while grown:  # handed on under another name (`result = <call>` in an expanded helper, `vert_mask = result` in the caller)
+        grown = False
+        for n in ast.walk(node):
+            if isinstance(n, ast.Assign) and len(n.targets) == 1 and isinstance(n.targets[0], ast.Name) and isinstance(n.value, ast.Name) \
+                    and n.value.id in mask_names and n.targets[0].id not in mask_names:
+                mask_names.add(n.targets[0].id)
+                grown = True
 
     def is_mask(e):
         x = X(e)
@@ -696,7 +759,7 @@ def rule_orphan(ctx) -> RuleResult:
     if not has_sel:
         res.find("CellObject", "mask_by_extent", "cells are not selected by np.all(<vertex mask>[self.cells], axis=1)", fn.where,
                  "a cell must be kept exactly when all of its vertices qualify")
-        return res
+        return
 
     # (2) used-vertex mask: all False, then set at the (flattened) vertex indices of the complete cells
     def kept_cell_vertices(e):
@@ -723,7 +786,7 @@ def rule_orphan(ctx) -> RuleResult:
     if not has_used:
         res.find("CellObject", "mask_by_extent", "used-vertex mask is not (zeros; [self.cells[cell mask].flatten()] = True)", fn.where,
                  "vertices of partially selected cells would be kept (orphans) or vertices of kept cells dropped")
-        return res
+        return
 
     # (3) every path returning the mask with cells present passes `mask &= used` (or returns mask & used)
     def meet(e):
@@ -754,7 +817,7 @@ def rule_orphan(ctx) -> RuleResult:
         res.inst("vertex mask &= used-vertex mask", ok=False)
         res.find("CellObject", "mask_by_extent", "the vertex mask is never intersected with the used-vertex mask", fn.where,
                  "orphan vertices (of cells cut by the box) stay selected")
-        return res
+        return
     rets = [n for n in g.nodes if n.kind == "return" and n.ast is not None and not is_none(n.ast)]
     if not rets:
         raise AnalysisError("CellObject.mask_by_extent: no exit returning the vertex mask recognised")
@@ -766,7 +829,7 @@ def rule_orphan(ctx) -> RuleResult:
         res.find("CellObject", "mask_by_extent", "a path returns the vertex mask without the orphan intersection although cells exist",
                  f"{fn.module.relpath}:{r.lineno}",
                  "with cells present, some inputs skip the orphan removal: vertices of cells cut by the box are selected without any cell using them")
-    return res
+    return
 
 
 # --------------------------------------------------------------------------------------------------------------------------
@@ -824,7 +887,7 @@ def rule_bbox(ctx) -> RuleResult:
     bi = p.module("shared/utils.py").functions.get("box_intersect")
     if pred is None or bi is None:
         raise AnalysisError("anchors shared.utils.mask_by_extent / box_intersect not found")
-    for ci, fn0, fn in _overrides(ctx):
+    for ci, fn0, fn, receivers in ((ci, fn0, v, Ks) for ci, fn0, _v in _overrides(ctx) for v, Ks in _views_by_receiver(ctx, ci, "mask_by_extent", fn0)):
         sn = fn.self_name or "self"
         guards = [c for c in ast.walk(fn.node) if _is_call_to(p, fn.module, c, bi)
                   and any("extent" in provenance(fn.node, [a], sn) for a in list(c.args) + [k.value for k in c.keywords])]
@@ -838,10 +901,7 @@ def rule_bbox(ctx) -> RuleResult:
             selected = {_norm_attr(ci, a) for a in provenance(fn.node, vals, sn)} or None
             guard_decides = True  # whatever passes the guard is selected as a whole
         getters = {}
-        for K in p.subclasses(ci):
-            m = K.lookup("mask_by_extent")
-            if not (m and m[1] == "method" and m[2] is fn0):
-                continue
+        for K in receivers:  # the classes that use the override with this resolution of its hooks
             e = K.lookup("extent")
             if e and e[1] == "prop" and e[2].getter is not None:
                 getters.setdefault(id(e[2].getter), (e[2].getter, []))[1].append(K)
@@ -942,8 +1002,17 @@ def rule_agree(ctx) -> RuleResult:
     )
     p = ctx.p
     pred = _predicate(p)
-    sources = {id(fn0): _selected_sources(p, fn, pred) for _ci, fn0, fn in _overrides(ctx)}
-    locations = set().union(*[s for s in sources.values() if s])  # what the package selects on at all (vertices, centroids, ...)
+    per_view = {}  # id(view) -> attributes the coordinates handed to the predicate come from
+    owners = {}
+    for ci, fn0, _v in _overrides(ctx):
+        owners[id(fn0)] = ci
+        for v, _Ks in _views_by_receiver(ctx, ci, "mask_by_extent", fn0):
+            per_view[id(v)] = _selected_sources(p, v, pred)
+    locations = set().union(*[s for s in per_view.values() if s])  # what the package selects on at all (vertices, centroids, ...)
+
+    def selected_on(K, mbe):
+        return per_view.get(id(_view(ctx, mbe, K))) if id(mbe) in owners else None
+
     done = set()
     for K in p.classes:
         if K.synthetic:
@@ -952,8 +1021,9 @@ def rule_agree(ctx) -> RuleResult:
         if not all(m and m[1] == "method" for m in got):
             continue
         cfe, mbe, cp = (m[2] for m in got)
-        key = (id(cfe), id(mbe), id(cp))
-        if key in done or not sources.get(id(mbe)):
+        selected = selected_on(K, mbe)
+        key = (id(cfe), id(mbe), id(cp), frozenset(selected or ()))
+        if key in done or not selected:
             continue
         done.add(key)
         v = _view(ctx, cfe)
@@ -974,7 +1044,6 @@ def rule_agree(ctx) -> RuleResult:
         if not handed:
             continue
         masked = _masked_attributes(ctx, K, cp) & locations
-        selected = sources[id(mbe)]
         ok = not masked or bool(masked & selected)
         res.inst(f"{K.name}: mask over {sorted(selected)} ({mbe.qualname}) applied to {sorted(masked) or 'no coordinates'} ({cp.qualname})", nontrivial=True, ok=ok)
         if not ok:
